@@ -57,6 +57,23 @@ def run(tier):
     work = os.path.join(BUILD, "work", "%s-%s" % (PROP, tier))
     os.makedirs(work, exist_ok=True)
     os.makedirs("/tmp/c10", exist_ok=True)
+    # the hypothesis of C10_two_dictionaries_in_one_directory_do_not_disturb_each_other (Model/Staging.v): two builds of
+    # one process get different staging names - read off the source of TrieBuilder::build (the `pair` campaign below
+    # looks for a failing input when this no longer holds)
+    try:
+        src = open("/repo/src/dictionary/trie.rs", encoding="utf-8").read()
+        body = src[src.index("fn build(&mut self, path: &Path)"):]
+        body = body[:body.index("fs::rename(")]
+        name = re.search(r"set_file_name\(\s*format!\(([^;]*?)\)\s*\)\s*;", body, re.S)
+        ok = bool(name) and "fetch_add" in body and re.search(r"\bseq\b", name.group(1) if name else "") is not None \
+            and re.search(r"static\s+\w+\s*:\s*(std::sync::atomic::)?AtomicU64", body) is not None
+        res.notes["staging_name_expression"] = " ".join((name.group(1) if name else "").split())[:200]
+        if not ok:
+            st["broken"].append({"obligation": "staging-name-unique (hypothesis of Model/Staging.v)",
+                                 "detail": "TrieBuilder::build no longer derives the staging file name from a process-wide sequence number: %s"
+                                           % res.notes["staging_name_expression"]})
+    except (OSError, ValueError) as e:
+        st["broken"].append({"obligation": "staging-name-unique (hypothesis of Model/Staging.v)", "detail": "TrieBuilder::build not found: %r" % (e,)})
     oracle_fail = []
     stats = {}
     total_lines = 0
